@@ -50,20 +50,12 @@ Definition spec_find (hs : list header) (k : kind) (n : str) (rev : option str) 
 (* a header is accepted unless the same (kind, name, revision) was loaded before *)
 Definition spec_ok (prev : list header) (h : header) : bool := negb (existsb (same_key h) prev).
 
-(* D30, sig=registry.norev-vs-rev: the header has no revision, it is not a duplicate, and a
-   header of the same kind and name that has a revision was loaded before it *)
-Definition d30_shape (prev : list header) (h : header) : bool :=
-  is_empty (cur h) && negb (existsb (same_key h) prev)
-  && existsb (same_kn (h_kind h) (h_name h)) prev.
-
 Fixpoint map_prefix {B} (f : list header -> header -> B) (prev rest : list header) : list B :=
   match rest with
   | [] => []
   | h :: t => f prev h :: map_prefix f (prev ++ [h]) t
   end.
 Definition spec_verdicts (hs : list header) : list bool := map_prefix spec_ok [] hs.
-Definition d30_flags (hs : list header) : list bool := map_prefix d30_shape [] hs.
-Definition d30_free (hs : list header) : bool := forallb negb (d30_flags hs).
 
 (* module names are YANG identifiers: no '@' *)
 Definition at_free (s : str) : bool := forallb (fun c => negb (N.eqb c AT)) s.
@@ -71,11 +63,6 @@ Definition names_ok (hs : list header) : bool := forallb (fun h => at_free (h_na
 
 Definition hkey (h : header) : kind * str * str := (h_kind h, h_name h, cur h).
 Definition distinct_keys (hs : list header) : Prop := NoDup (map hkey hs).
-
-(* the set mixes, for one kind and name, a header without and a header with a revision *)
-Definition mixed (hs : list header) : bool :=
-  existsb (fun a => is_empty (cur a) &&
-             existsb (fun b => same_kn (h_kind a) (h_name a) b && negb (is_empty (cur b))) hs) hs.
 
 (* ===================================================================================== *)
 (* (b) file chooser                                                                      *)
